@@ -188,6 +188,11 @@ def rule_b(ctx):
             else 'a keepalive task is not started with the connection (%s)' % sorted(started))
 
 
+def rule_plumbing(ctx):
+    from . import plumbing
+    plumbing.rule_sender_hooks(ctx, 'C15.b')
+
+
 def rule_dispatch(ctx):
     """KEEPALIVE frames of the connection reach handle_keep_alive (the method C15.a decides)."""
     from . import dispatch
@@ -196,4 +201,4 @@ def rule_dispatch(ctx):
     dispatch.rule_routing(ctx, 'C01.e', only=['KeepAliveFrame'])
 
 
-RULES = [('C15.a', rule_a), ('C15.b', rule_b), ('C01.e', rule_dispatch)]
+RULES = [('C15.a', rule_a), ('C15.b', rule_b), ('C15.b', rule_plumbing), ('C01.e', rule_dispatch)]
